@@ -63,7 +63,9 @@ def symbolic_junk(slot: int, kind: int, i: int, s: str, allow: bool) -> bool:
 
 
 # ---- every class x every slot x concrete junk of every JSON kind, at top level and inside embedded objects / extensions
-JUNK = [None, 0, -1, 3.5, "", "x", True, [], [0], ["x"], {}, {"a": 1}, [{"a": "b"}], {"a": {"b": 1}}, [[1]], {"": ""}, [{"": ""}], [None], {"a": None}]
+JUNK = [None, 0, -1, 3.5, "", "x", True, [], [0], ["x"], {}, {"a": 1}, [{"a": "b"}], {"a": {"b": 1}}, [[1]], {"": ""}, [{"": ""}], [None], {"a": None},
+        False, "toplevel-property-extension", {"extension_type": "toplevel-property-extension"}, {"x-a-ext": {"extension_type": "toplevel-property-extension"}},
+        {"extension-definition--311b2d2d-f010-4473-83ec-1edf84858f4c": 5}, {"extension-definition--311b2d2d-f010-4473-83ec-1edf84858f4c": {"extension_type": 7}}]
 NJ = len(JUNK)
 
 
@@ -75,7 +77,7 @@ def _cases():
             continue
         if cat == "observables" and ver == "2.0":
             continue
-        slots = sorted(set(cls._properties) | {"extensions", "x_custom", "spec_version"})
+        slots = sorted(set(cls._properties) | {"extensions", "x_custom", "spec_version", "custom_properties", ""})
         for sl in slots:
             out.append((ver, cat, name, sl, base))
     # nested sites
@@ -95,11 +97,18 @@ def _cases():
           "objects": {"0": {"type": "file", "name": "f"}, "1": {"type": "directory", "path": "p", "contains_refs": ["0"]}}}
     for path in ("objects.0", "objects.0.type", "objects.0.name", "objects.1.contains_refs", "objects.1.contains_refs.0", "objects"):
         out.append(("2.0", "objects", "observed-data", path, od))
+    unk = {"type": "x-unregistered-type", "spec_version": "2.1", "id": "x-unregistered-type--311b2d2d-f010-4473-83ec-1edf84858f4c",
+           "created": "2020-01-01T00:00:00.000Z", "modified": "2020-01-01T00:00:00.000Z", "extensions": {"x-a-ext": {"a": 1}}}
+    for path in ("extensions", "extensions.x-a-ext", "extensions.x-a-ext.a", "id", "spec_version", "granular_markings"):
+        out.append(("2.1", "objects", "x-unregistered-type", path, unk))
+    for path in ("extensions.ntfs-ext.extension_type", "extensions.windows-pebinary-ext.extension_type"):
+        out.append(("2.1", "observables", "file", path, f))
     b21 = {"type": "bundle", "id": "bundle--311b2d2d-f010-4473-83ec-1edf84858f4c", "objects": [dict(IDENT)]}
     b20 = {"type": "bundle", "id": "bundle--311b2d2d-f010-4473-83ec-1edf84858f4c", "spec_version": "2.0", "objects": [
         {"type": "tool", "id": "tool--311b2d2d-f010-4473-83ec-1edf84858f4c", "created": "2020-01-01T00:00:00.000Z", "modified": "2020-01-01T00:00:00.000Z", "name": "t", "labels": ["x"]}]}
     for b, ver in ((b21, "2.1"), (b20, "2.0")):
-        for path in ("objects", "objects.0", "objects.0.type", "objects.0.id", "id", "type", "spec_version"):
+        for path in ("objects", "objects.0", "objects.0.type", "objects.0.id", "id", "type", "spec_version", "granular_markings", "x_custom", "extensions",
+                     "objects.0.granular_markings", "objects.0.extensions"):
             out.append((ver, "objects", "bundle", path, b))
     return out
 
